@@ -377,6 +377,7 @@ def client_layer(ctx):
     ok = core.correspond(ctx, "mpmc", "mpmchp", exe, cases, C13.monitor)
     if (not ok or len(ctx.failures) > nf) and not ctx.violations:
         C13.search(ctx, exe)
+    C13.tso_pass(ctx, exe)     # 'publish then full fence before the validating re-read': only visible with store buffers
 
 
 def search(ctx, exe):
